@@ -14,7 +14,7 @@ from ..desc import field, message, method, service, file, request, EMPTY
 from ..ref import names
 from ..report import HarnessError
 
-RULE = ('cells = (reserved words U Python keywords) x 11 positions + control-word file names + module collisions, complete; '
+RULE = ('cells = (reserved words U Python keywords) x 13 positions + control-word file names + module collisions, complete; '
         'packed per position, isolated per word on failure; per cell one driven call on gRPC and on REST: python name has '
         'exactly one trailing underscore, wire/JSON/URL/routing keys/RPC path keep the original; non-trivial = distinct cells '
         'with >=1 wire observation')
@@ -22,7 +22,7 @@ RULE = ('cells = (reserved words U Python keywords) x 11 positions + control-wor
 P = 'acme.kw.v1'
 Q = lambda n: f'.{P}.{n}'
 WORDS = sorted(set(names.RESERVED) | set(keyword.kwlist))
-POSITIONS = ['top-field', 'nested-field', 'flattened', 'flattened-dotted', 'path-var', 'path-var-dotted-first',
+POSITIONS = ['top-field', 'nested-field', 'flattened', 'flattened-dotted', 'flattened-dotted-first', 'path-var', 'path-var-dotted-first',
              'path-var-dotted-last', 'body-field', 'routing-field', 'rpc-name', 'rpc-name-capitalised', 'file-name']
 CONTROL_FILE_WORDS = ['metadata', 'retry', 'timeout', 'request']
 
@@ -54,6 +54,13 @@ def build(position, words):
             rq = Q('Holder') if position == 'flattened' else Q('Outer')
             meths.append(method(rpc, rq, Q('Resp'), http=('post', f'/v1/flat/{widx[w]}', '*'), sigs=[sig]))
             cells.append(dict(word=w, rpc=rpc, py=names.py_method(rpc), req=rq))
+    elif position == 'flattened-dotted-first':
+        for w in words:
+            i = widx[w]
+            msgs.append(message(f'Rq{i}', [field(w, 1, Q('Named')), field('extra', 2, 'string')]))
+            rpc = f'Flat{i}'
+            meths.append(method(rpc, Q(f'Rq{i}'), Q('Resp'), http=('post', f'/v1/flatf/{i}', '*'), sigs=[f'{w}.name']))
+            cells.append(dict(word=w, rpc=rpc, py=names.py_method(rpc), req=Q(f'Rq{i}')))
     elif position in ('path-var', 'path-var-dotted-first', 'path-var-dotted-last', 'body-field', 'routing-field'):
         for w in words:
             i = widx[w]
